@@ -59,9 +59,9 @@ def fam1(s01, s02, s10, s12, s20, s21, m0, m1, m2, d0, d1, d2, z0, z1, z2, k0, k
     return (3, npos, S, [m0, m1, m2], [d0, d1, d2], lazy, [k0, k1, k2], list(LAYERS))
 
 
-def agree(fam, recv):
+def agree(fam, recv, kwmode=False):
     order = X.PERMS3[0]
-    got, log = X.run(*fam, order, recv)
+    got, log = X.run(*fam, order, recv, kwmode)
     exp, expect_eval = X.reference(*fam, order, recv)
     if isinstance(exp, tuple):
         exp_ok = (got == exp)
@@ -105,7 +105,7 @@ def select_2pos(a01: bool, a02: bool, a10: bool, a12: bool, a20: bool, a21: bool
     """
     S = [X.mat3(a01, a02, a10, a12, a20, a21), X.mat3(b01, b02, b10, b12, b20, b21)]
     fam = (3, 2, S, [True, True, True], [True, True, d2], [[False, False]] * 3, [False] * 3, list(LAYERS))
-    return H.done(agree(fam, False))
+    return H.done(agree(fam, False, bool(H.P('kwmode'))))
 
 
 # ------------------------------------------------------------------ binding of one call to one signature
@@ -242,6 +242,74 @@ def layering(f0: bool, m0: bool, f1: bool, m1: bool, f2: bool, m2: bool,
     return H.done(got == exp)
 
 
+# ------------------------------------------------------------------ keyword names under a naming convention
+def _alias_context():
+    import yaql
+    from yaql.language import conventions, specs, yaqltypes
+    ctx = yaql.create_context(convention=conventions.CamelCaseConvention())
+    log = []
+
+    def tick():
+        log.append('tick')
+        return 5
+
+    def s_int(some_val):
+        return 'int'
+
+    def s_obj(some_val_):
+        return 'obj'
+
+    def g(first_arg, item_filter, call_it=False):
+        return item_filter() if call_it else 'not-called'
+
+    def outer(the_predicate):
+        return 'outer'
+
+    def inner(the_predicate_):
+        return 'inner'
+    fd = specs.get_function_definition(s_int, name='s', convention=ctx.convention)
+    fd.set_parameter('some_val', yaqltypes.PythonType(int, False, [lambda t: not isinstance(t, bool)]), overwrite=True)
+    fd.parameters['some_val'].alias = 'someVal'
+    ctx.register_function(fd)
+    ctx.register_function(s_obj, name='s')
+    fdg = specs.get_function_definition(g, name='g', convention=ctx.convention)
+    fdg.set_parameter('item_filter', yaqltypes.Lambda(), overwrite=True)
+    fdg.parameters['item_filter'].alias = 'itemFilter'
+    ctx.register_function(fdg)
+    ctx.register_function(tick, name='tick')
+    ctx.register_function(outer, name='p')
+    child = ctx.create_child_context()
+    child.register_function(inner, name='p')
+    return child, log
+
+
+if not H.P('driver'):
+    ALIAS_CTX, ALIAS_LOG = _alias_context()
+
+
+def alias_kw(v: Union[int, str], which: int, bykw: bool, call_it: bool) -> bool:
+    """
+    pre: 0 <= which < 3 and (isinstance(v, int) or len(v) <= 1)
+    post: _
+    """
+    from vf import yq
+    del ALIAS_LOG[:]
+    if which == 0:       # two overloads distinguished by the type of a parameter passed by its convention-translated keyword
+        text = 's(someVal => $v)' if bykw else 's($v)'
+        exp = ('ok', 'int' if (isinstance(v, int) and not isinstance(v, bool)) else 'obj')
+        exp_log = []
+    elif which == 1:     # a lazy parameter passed by keyword is evaluated only if the payload asks for it
+        text = ('g(1, itemFilter => tick(), callIt => %s)' if bykw else 'g(1, tick(), %s)') % ('true' if call_it else 'false')
+        exp = ('ok', 5 if call_it else 'not-called')
+        exp_log = ['tick'] if call_it else []
+    else:                # nearest layer wins although the two layers spell the python name differently
+        text = 'p(thePredicate => $v)' if bykw else 'p($v)'
+        exp = ('ok', 'inner')
+        exp_log = []
+    got = yq.outcome(text, ctx=ALIAS_CTX, v=v)
+    return H.done(got == exp and ALIAS_LOG == exp_log)
+
+
 PATTERNS = [[0, 0, 0], [0, 0, 1], [0, 1, 1], [0, 1, 2]]
 
 
@@ -277,14 +345,19 @@ def conditions(tier, seed):
     if 'C05/empty-slot-in-varargs-leaks-marker' in KNOWN:
         out.append({'name': 'probe[empty-slot-in-varargs]', 'func': 'probe_skip_in_varargs', 'timeout': 60, 'kind': 'probe',
                     'param': {'probe_key': 'C05/empty-slot-in-varargs-leaks-marker'}, 'bounds': 'f(1,,3) and f(1,2,) against def f(p0, *rest)'})
+    out.append({'name': 'alias_kw', 'func': 'alias_kw', 'timeout': t,
+                'bounds': 'functions registered under the CamelCase convention with multi-word / trailing-underscore parameter '
+                          'names, called positionally and by the convention-translated keyword; value int or str(len<=1); lazy '
+                          'parameter by keyword; two layers'})
     for layers in PATTERNS:
         out.append({'name': 'layering[layers=%s]' % ''.join(map(str, layers)), 'func': 'layering', 'timeout': t,
                     'param': {'layers': layers},
                     'bounds': '3 overloads in real contexts (layers %s) with symbolic function/method/extension kinds, '
                               'symbolic exclusive flags per layer, call with or without receiver' % layers})
     for layers in (PATTERNS[:1] if tier == 'quick' else PATTERNS):
-        out.append({'name': 'select_2pos[layers=%s]' % ''.join(map(str, layers)), 'func': 'select_2pos', 'timeout': 2 * t,
-                    'param': {'layers': layers},
+      for kwmode in (False, True):
+        out.append({'name': 'select_2pos[layers=%s%s]' % (''.join(map(str, layers)), ',kw' if kwmode else ''), 'func': 'select_2pos',
+                    'timeout': 2 * t, 'param': {'layers': layers, 'kwmode': kwmode},
                     'bounds': '3 matching candidates, 2 argument positions with independent symbolic strict partial orders'})
     return out
 
@@ -302,6 +375,9 @@ def replay(cond, args):
         S = [X.mat3(a['a01'], a['a02'], a['a10'], a['a12'], a['a20'], a['a21']),
              X.mat3(a['b01'], a['b02'], a['b10'], a['b12'], a['b20'], a['b21'])]
         fam = (3, 2, S, [True, True, True], [True, True, a['d2']], [[False, False]] * 3, [False] * 3, list(LAYERS))
+        if H.P('kwmode') and agree(fam, recv):
+            return {'reproduced': not agree(fam, recv, True), 'key': 'C05/selection-by-keyword-differs',
+                    'what': 'choose_overload with the second argument passed by keyword differs from the rules for %r' % (a,)}
     elif f in ('bind_shape', 'bind_bad'):
         from props import c05_bind as B
         si = SIGS[a['s']]
@@ -320,6 +396,11 @@ def replay(cond, args):
         return {'reproduced': True, 'key': 'C05/binding/%s' % src,
                 'what': '%s called with positional %r keywords %r: yaql binds %r, python-signature binding gives %r' % (
                     src, shown, ckw, got, exp)}
+    elif f == 'alias_kw':
+        ok = alias_kw(**a)
+        return {'reproduced': not ok, 'key': 'C05/keyword-alias-binding',
+                'what': 'call by convention-translated keyword differs from the positional call / evaluates a lazy argument '
+                        'in the resolver: %r' % (a,)}
     elif f == 'layering':
         ok = layering(**a)
         return {'reproduced': not ok, 'key': 'C05/layering', 'what': 'kind filter / layering differs from the rules for %r layers %r' % (a, LAYERS)}
